@@ -197,3 +197,419 @@ func (eng *Engine) effectsNoRecover(props []string) []*Obligation {
 
 var _ = fmt.Sprintf
 var _ = token.ADD
+
+// isHookFunc: code that exists only under the verif build tag (proof carriers) is not part of the library.
+func (eng *Engine) isHookFunc(fn *ssa.Function) bool {
+	f := fn
+	for f.Parent() != nil {
+		f = f.Parent()
+	}
+	pos := eng.fset.Position(f.Pos())
+	return strings.HasSuffix(pos.Filename, "verif_hooks.go")
+}
+
+// effectsFrames: C14/C15 - no function writes memory that existed before the call, except as
+// declared in a modifies clause. Functions under an E1 contract have their writes checked
+// symbolically (frame obligations of E1); all others must be syntactically clean.
+func (eng *Engine) effectsFrames(props []string) []*Obligation {
+	var out []*Obligation
+	for _, fn := range eng.allFuncs("spg") {
+		if eng.isHookFunc(fn) {
+			continue
+		}
+		key := eng.fnKey(fn)
+		if fn.Name() == "init" && fn.Synthetic != "" {
+			continue
+		}
+		d := eng.dirtyFunc(fn)
+		var bad []string
+		fc := eng.contractOf(fn)
+		underE1 := fc != nil && !fc.Inline && !fc.Trusted
+		for c := range d {
+			if underE1 {
+				continue // decided precisely by the frame obligations generated while verifying fn
+			}
+			bad = append(bad, "may write existing objects of "+c)
+		}
+		// goroutines would break the sequential frame argument
+		for _, b := range fn.Blocks {
+			for _, in := range b.Instrs {
+				if _, ok := in.(*ssa.Go); ok {
+					bad = append(bad, "starts a goroutine")
+				}
+			}
+		}
+		sort.Strings(bad)
+		why := strings.Join(bad, "; ")
+		o := effOb(key, "effects", "frame", props, len(bad) == 0, why)
+		if underE1 && len(d) > 0 {
+			o.Raw = "writes to possibly pre-existing memory are decided by E1 frame obligations"
+		}
+		out = append(out, o)
+	}
+	return out
+}
+
+// effectsGlobals: package-level variables are written only by initialisers, and the only
+// mutable configuration read on API paths is MaxTrials / MaxFailRate.
+func (eng *Engine) effectsGlobals(props []string) []*Obligation {
+	allowedReads := map[string]bool{"MaxTrials": true, "MaxFailRate": true, "charTypeByFlag": true, "charTypeNamesByFlag": true,
+		"AgileWords": true, "AgileSyllables": true}
+	var out []*Obligation
+	for _, fn := range eng.allFuncs("spg") {
+		if eng.isHookFunc(fn) {
+			continue
+		}
+		isInit := fn.Name() == "init" && fn.Synthetic != ""
+		var bad []string
+		for _, b := range fn.Blocks {
+			for _, in := range b.Instrs {
+				for _, op := range in.Operands(nil) {
+					g, ok := (*op).(*ssa.Global)
+					if !ok || g.Pkg == nil {
+						continue
+					}
+					own := g.Pkg.Pkg.Path() == "go.1password.io/spg"
+					switch x := in.(type) {
+					case *ssa.UnOp:
+						if x.Op == token.MUL && !isInit {
+							if own && !allowedReads[g.Name()] && !strings.HasPrefix(g.Name(), "SF") {
+								bad = append(bad, "reads package variable "+g.Name())
+							}
+							if !own {
+								nm := g.Pkg.Pkg.Path() + "." + g.Name()
+								if nm != "os.Stderr" && nm != "os.Stdout" && nm != "encoding/binary.BigEndian" {
+									bad = append(bad, "reads "+nm)
+								}
+							}
+						}
+					case *ssa.Store:
+						if x.Addr == ssa.Value(g) && !isInit {
+							bad = append(bad, "assigns package variable "+g.Name())
+						}
+					default:
+						if !isInit {
+							bad = append(bad, fmt.Sprintf("takes the address of package variable %s (%T)", g.Name(), in))
+						}
+					}
+				}
+				// writes into package-level maps / slices through a loaded reference
+				if mu, ok := in.(*ssa.MapUpdate); ok && !isInit {
+					if u, ok := mu.Map.(*ssa.UnOp); ok {
+						if g, ok := u.X.(*ssa.Global); ok {
+							bad = append(bad, "updates package-level map "+g.Name())
+						}
+					}
+				}
+				if c, ok := in.(*ssa.Call); ok && !isInit {
+					if bi, ok := c.Common().Value.(*ssa.Builtin); ok && bi.Name() == "delete" {
+						if u, ok := c.Common().Args[0].(*ssa.UnOp); ok {
+							if g, ok := u.X.(*ssa.Global); ok {
+								bad = append(bad, "deletes from package-level map "+g.Name())
+							}
+						}
+					}
+				}
+			}
+		}
+		out = append(out, effOb(eng.fnKey(fn), "effects", "globals", props, len(bad) == 0, strings.Join(bad, "; ")))
+	}
+	return out
+}
+
+// ---------- secrecy (C18) ----------
+
+type labels uint64 // bit 0: SECRET (derived from a random draw); bit k+1: depends on parameter k
+
+const secretBit labels = 1
+
+type fnSummary struct {
+	res      []labels // per result: labels
+	sinkPars labels   // parameters (bits k+1) that flow to an output sink inside the function (transitively)
+	viol     []string // secrets reaching a sink inside this function
+}
+
+func (eng *Engine) secrecy(props []string) []*Obligation {
+	fns := eng.allFuncs("spg")
+	sum := map[*ssa.Function]*fnSummary{}
+	for _, f := range fns {
+		n := f.Signature.Results().Len()
+		sum[f] = &fnSummary{res: make([]labels, n)}
+	}
+	heap := map[string]labels{} // heap component -> labels of stored values (package-wide, flow-insensitive)
+	isSink := func(c *ssa.CallCommon) (bool, string) {
+		nm := calleeName(c)
+		for _, p := range []string{"fmt.Print", "fmt.Fprint", "log.Print", "log.Fatal", "log.Panic", "builtin print", "os.Stdout", "os.Stderr", "(*os.File).Write", "(io.Writer).Write", "io.WriteString", "(*log.Logger)"} {
+			if strings.Contains(nm, p) {
+				return true, nm
+			}
+		}
+		return false, nm
+	}
+	isSource := func(c *ssa.CallCommon) bool {
+		nm := calleeName(c)
+		return nm == "go.1password.io/spg.randomUint32" || nm == "go.1password.io/spg.randomUint32n"
+	}
+	// labels of everything reachable from a value of type t through pointers, slices, maps and fields
+	var reachT func(t types.Type, depth int) labels
+	reachT = func(t types.Type, depth int) labels {
+		if depth > 6 {
+			return 0
+		}
+		var l labels
+		switch u := t.Underlying().(type) {
+		case *types.Pointer:
+			if _, isArr := u.Elem().Underlying().(*types.Array); !isArr {
+				l |= heap[ptrHeap(u.Elem())]
+			}
+			l |= reachT(u.Elem(), depth+1)
+		case *types.Slice:
+			l |= heap[sliceHeap(u.Elem())] | reachT(u.Elem(), depth+1)
+		case *types.Array:
+			l |= heap[sliceHeap(u.Elem())] | reachT(u.Elem(), depth+1)
+		case *types.Map:
+			l |= heap[mapVal(u)] | reachT(u.Elem(), depth+1)
+		case *types.Struct:
+			for i := 0; i < u.NumFields(); i++ {
+				l |= reachT(u.Field(i).Type(), depth+1)
+			}
+		}
+		return l
+	}
+	reachV := func(v ssa.Value) labels {
+		if mi, ok := v.(*ssa.MakeInterface); ok {
+			return reachT(mi.X.Type(), 0)
+		}
+		return reachT(v.Type(), 0)
+	}
+	changed := true
+	for iter := 0; changed && iter < 50; iter++ {
+		changed = false
+		for _, f := range fns {
+			s := sum[f]
+			s.viol = nil
+			val := map[ssa.Value]labels{}
+			for i, p := range f.Params {
+				val[p] = 1 << uint(i+1)
+			}
+			for i, fv := range f.FreeVars {
+				// captured variables: treated like extra parameters beyond the declared ones
+				val[fv] = 1 << uint(len(f.Params)+i+1)
+			}
+			get := func(v ssa.Value) labels {
+				if l, ok := val[v]; ok {
+					return l
+				}
+				return 0
+			}
+			compOf := func(addr ssa.Value) []string {
+				t := map[string]bool{}
+				eng.addrComp(addr, t)
+				var cs []string
+				for c := range t {
+					cs = append(cs, c)
+				}
+				return cs
+			}
+			local := true
+			for pass := 0; local && pass < 20; pass++ {
+				local = false
+				set := func(v ssa.Value, l labels) {
+					if val[v]|l != val[v] {
+						val[v] |= l
+						local = true
+					}
+				}
+				for _, b := range f.Blocks {
+					for _, in := range b.Instrs {
+						switch x := in.(type) {
+						case *ssa.Store:
+							for _, c := range compOf(x.Addr) {
+								l := get(x.Val)
+								if heap[c]|l != heap[c] {
+									heap[c] |= l
+									changed = true
+								}
+							}
+						case *ssa.MapUpdate:
+							mt := x.Map.Type().Underlying().(*types.Map)
+							l := get(x.Key) | get(x.Value)
+							if heap[mapVal(mt)]|l != heap[mapVal(mt)] {
+								heap[mapVal(mt)] |= l
+								changed = true
+							}
+						case *ssa.UnOp:
+							if x.Op == token.MUL {
+								l := get(x.X)
+								for _, c := range compOf(x.X) {
+									l |= heap[c]
+								}
+								set(x, l)
+							} else {
+								set(x, get(x.X))
+							}
+						case *ssa.Lookup:
+							l := get(x.X) | get(x.Index)
+							if mt, ok := x.X.Type().Underlying().(*types.Map); ok {
+								l |= heap[mapVal(mt)]
+							}
+							set(x, l)
+						case *ssa.Return:
+							for i, r := range x.Results {
+								if s.res[i]|get(r) != s.res[i] {
+									s.res[i] |= get(r)
+									changed = true
+								}
+							}
+						case *ssa.Panic:
+							if (get(x.X)|reachV(x.X))&secretBit != 0 {
+								s.viol = append(s.viol, "panic payload depends on generated material")
+							}
+							if pl := get(x.X) &^ secretBit; s.sinkPars|pl != s.sinkPars {
+								s.sinkPars |= pl
+								changed = true
+							}
+						case *ssa.Call:
+							c := x.Common()
+							var argl labels
+							var args []ssa.Value
+							if c.IsInvoke() {
+								args = append(args, c.Value)
+							}
+							args = append(args, c.Args...)
+							for _, a := range args {
+								argl |= get(a)
+							}
+							if sink, nm := isSink(c); sink {
+								// variadic arguments arrive in a slice: its elements' labels are in the heap component
+								l := argl
+								for _, a := range args {
+									if sl, ok := a.Type().Underlying().(*types.Slice); ok {
+										l |= variadicLabels(a, func(v ssa.Value) labels { return get(v) | reachV(v) }, heap[sliceHeap(sl.Elem())])
+									} else {
+										l |= reachV(a)
+									}
+								}
+								if l&secretBit != 0 {
+									s.viol = append(s.viol, "value derived from a random draw reaches "+nm)
+								}
+								if pl := l &^ secretBit; s.sinkPars|pl != s.sinkPars {
+									s.sinkPars |= pl
+									changed = true
+								}
+								continue
+							}
+							if isSource(c) {
+								set(x, secretBit)
+								continue
+							}
+							var callee *ssa.Function
+							switch cv := c.Value.(type) {
+							case *ssa.Function:
+								callee = cv
+							case *ssa.MakeClosure:
+								callee = cv.Fn.(*ssa.Function)
+							}
+							if cs, ok := sum[callee]; ok && callee != nil {
+								var rl labels
+								for _, r := range cs.res {
+									rl |= r
+								}
+								out := rl & secretBit
+								for i, a := range c.Args {
+									if rl&(1<<uint(i+1)) != 0 {
+										out |= get(a)
+									}
+									if cs.sinkPars&(1<<uint(i+1)) != 0 {
+										if get(a)&secretBit != 0 {
+											s.viol = append(s.viol, "value derived from a random draw is passed to "+calleeName(c)+" which writes it to an output sink")
+										}
+										if pl := get(a) &^ secretBit; s.sinkPars|pl != s.sinkPars {
+											s.sinkPars |= pl
+											changed = true
+										}
+									}
+								}
+								set(x, out)
+								continue
+							}
+							// unknown / external / dynamic callee: result depends on all arguments; results of
+							// separator functions of unknown origin are generated material
+							out := argl
+							if _, isFnVal := c.Value.(*ssa.Function); !isFnVal && !c.IsInvoke() {
+								if _, isB := c.Value.(*ssa.Builtin); !isB {
+									if _, isC := c.Value.(*ssa.MakeClosure); !isC {
+										out |= secretBit
+									}
+								}
+							}
+							// builtins len/cap do not reveal contents
+							if bi, ok := c.Value.(*ssa.Builtin); ok && (bi.Name() == "len" || bi.Name() == "cap") {
+								out = 0
+								for _, a := range c.Args {
+									out |= get(a)
+								}
+							}
+							set(x, out)
+						default:
+							if v, ok := in.(ssa.Value); ok {
+								var l labels
+								for _, op := range in.Operands(nil) {
+									if *op != nil {
+										l |= get(*op)
+									}
+								}
+								set(v, l)
+							}
+						}
+					}
+				}
+			}
+		}
+	}
+	var out []*Obligation
+	for _, f := range fns {
+		if eng.isHookFunc(f) {
+			continue
+		}
+		s := sum[f]
+		sort.Strings(s.viol)
+		var uniq []string
+		for i, v := range s.viol {
+			if i == 0 || v != s.viol[i-1] {
+				uniq = append(uniq, v)
+			}
+		}
+		o := effOb(eng.fnKey(f), "secrecy", "no-secret-to-sink", props, len(uniq) == 0, strings.Join(uniq, "; "))
+		out = append(out, o)
+	}
+	return out
+}
+
+// variadicLabels: labels of the elements of a variadic argument slice. The compiler builds it
+// as `new [n]T (varargs)`, stores into its elements and slices it: those stores are read directly
+// (the package-wide label of the element heap would make every formatted message look secret).
+func variadicLabels(a ssa.Value, get func(ssa.Value) labels, fallback labels) labels {
+	sl, ok := a.(*ssa.Slice)
+	if !ok {
+		if c, isC := a.(*ssa.Const); isC && c.Value == nil {
+			return 0
+		}
+		return fallback
+	}
+	al, ok := sl.X.(*ssa.Alloc)
+	if !ok {
+		return fallback
+	}
+	var l labels
+	for _, b := range al.Parent().Blocks {
+		for _, in := range b.Instrs {
+			if st, ok := in.(*ssa.Store); ok {
+				if ia, ok := st.Addr.(*ssa.IndexAddr); ok && ia.X == ssa.Value(al) {
+					l |= get(st.Val)
+				}
+			}
+		}
+	}
+	return l
+}
